@@ -264,7 +264,10 @@ def size_limit(r, F):
 
 
 def run(chk, F):
-    chk.run_rule("C08.code-symmetry", "every built-in Code impl encodes and decodes with the same endianness, width, order and exact-length primitives", 20 if F.config != "serde" else 1, code_symmetry, F)
+    if F.config == "serde":
+        chk.run_rule("C08.code-symmetry-serde", "under the serde feature Code is the bincode blanket impl, used symmetrically", 2, code_symmetry, F)
+    else:
+        chk.run_rule("C08.code-symmetry", "every built-in Code impl encodes and decodes with the same endianness, width, order and exact-length primitives", 20, code_symmetry, F)
     chk.run_rule("C08.compression-arms", "serialize_value and deserialize_value use the same codec family per compression tag", 6, compression_arms, F)
     chk.run_rule("C08.no-lost-error", "every Result in the serializer is propagated; the zstd stream is finished explicitly; lengths come from the tracking writer", 8, no_lost_error, F)
     chk.run_rule("C08.tracked-writer", "the length-tracking writer forwards each Write method like-for-like and counts accepted bytes on success only", 6, tracked_writer, F)
